@@ -23,6 +23,8 @@ def scenario_for(seed, index, tier):
         return wrapper_scenario(rng)
     if rng.random() < 0.2:
         return dual_scenario(rng)
+    if rng.random() < 0.1:
+        return online_scenario(rng)
     sup = common.supported()
     proto = common.pick_proto(rng, sup)
     ids = ids_for(proto)
@@ -127,6 +129,168 @@ def dual_scenario(rng):
                   'max_steps': 600000},
         'rand_seed': rng.randrange(2**32),
     }
+
+
+def online_scenario(rng):
+    """Online-mode login: the session service is asked to vouch for the
+    secret before the encryption response goes out; its first reply may be a
+    (transient or final) failure."""
+    sup = common.supported()
+    proto = common.pick_proto(rng, sup)
+    first = rng.choice([204, 204, 503, 500, 429, 403, 502])
+    writes = [['plugin', 'w:o', bytes((i * 17 + j) & 0xFF for j in range(
+        rng.choice([0, 1, 16, 17, 300]))).hex()]
+        for i in range(rng.randint(1, 5))]
+    items = [['plugin', 'e:o', bytes(rng.randrange(256) for _ in range(
+        rng.choice([0, 15, 16, 200]))).hex()]
+        for _ in range(rng.randint(1, 4))]
+    enc = {'bits': rng.choice([1024, 2048]),
+           'token_hex': bytes(rng.randrange(256)
+                              for _ in range(4)).hex(),
+           'server_id': 'srv%04x' % rng.randrange(65536)}
+    return {
+        'kind': 'online', 'proto': proto, 'first_join_reply': first,
+        'writes': writes, 'items': items,
+        'server': {'conns': [{'login': [['encrypt', enc], ['success']],
+                              'play': items}]},
+        'net': {'latency_us': rng.choice([50, 500])},
+        'sched': {'granularity': 'io', 'max_steps': 400000},
+        'rand_seed': rng.randrange(2**32),
+    }
+
+
+def execute_online(scenario, tape):
+    from sim import authsvc
+    w = World(scenario, tape)
+    st = {'errs': [], 'log': [], 'in_play': False}
+    ids = ids_for(scenario['proto'])
+    first = scenario['first_join_reply']
+    body = '' if first == 204 else \
+        '{"error":"ServiceUnavailable","errorMessage":"try later"}'
+    svc = authsvc.Service(replies=[authsvc.Reply(first, body)],
+                          default=authsvc.Reply(204, ''))
+
+    def build(w):
+        from minecraft.networking.connection import Connection
+        from minecraft.networking.packets import Packet, serverbound
+        from minecraft import authentication
+        tok = authentication.AuthenticationToken('user@example.org',
+                                                 'ACCESS-TOKEN',
+                                                 'client-token')
+        tok.profile.id_ = 'c' * 32
+        tok.profile.name = 'Online'
+        conn = Connection('sim.example', 25565, auth_token=tok,
+                          allowed_versions=[scenario['proto']],
+                          handle_exception=lambda e, i: (
+                              [] if st.get('closing') else
+                              st['errs']).append(e))
+
+        def on_packet(p):
+            if p.packet_name == 'login success':
+                st['in_play'] = True
+            elif st['in_play'] and \
+                    type(p).__name__ == 'PluginMessagePacket':
+                st['log'].append((p.channel, bytes(p.data).hex()))
+        conn.register_packet_listener(on_packet, Packet, early=True)
+
+        def user():
+            r = w.api('connect', conn.connect)
+            if not r.ok:
+                st['errs'].append(r.exc)
+                return
+            w.wait_until(lambda: st['in_play'] or st['errs'], 30000000)
+            if st['errs']:
+                w.wait_until(lambda: common.all_net_done(w.sim), 10000000)
+                return
+            for wr in scenario['writes']:
+                w.api('write', conn.write_packet,
+                      serverbound.play.PluginMessagePacket(
+                          channel=wr[1], data=bytes.fromhex(wr[2])))
+            w.wait_until(lambda: st['errs'] or (
+                w.server.apps and w.server.apps[0].play_frames >=
+                len(scenario['writes']) and
+                len(st['log']) >= len(scenario['items'])), 60000000)
+            st['closing'] = True
+            w.api('disconnect', conn.disconnect)
+            w.wait_until(lambda: common.all_net_done(w.sim), 10000000)
+        w.sim.spawn(user, 'user0')
+
+    import minecraft.authentication as A
+    w.extra = [(A, 'requests', authsvc.SimRequests(svc, w.sim))]
+    w.run(build)
+    res = common.result_from_world(w)
+    V = res.violations
+    res.summary = {'kind': 'online', 'proto': scenario['proto'],
+                   'first_join_reply': first,
+                   'join_requests': len(svc.requests),
+                   'end': w.sim.end_state}
+    res.state_sigs = [('online', first, len(svc.requests))]
+    res.obligations += 2
+    if w.sim.end_state == 'inconclusive':
+        return res
+    app = w.server.apps[0] if w.server.apps else None
+    got_response = app is not None and app.enc is not None and \
+        app.enc.get('secret') is not None
+    if w.sim.end_state != 'done':
+        V.append(('C18/online:%s' % w.sim.end_state,
+                  {'detail': repr(w.sim.end_detail),
+                   'server_has_secret': got_response}))
+        return res
+    if not got_response:
+        # nothing went out under encryption; the login must not have ended
+        # silently (whether one failed reply justifies giving up is C19's
+        # and C10's business)
+        res.obligations += 1
+        if not st['errs']:
+            V.append(('C18/online-login-ended-silently',
+                      {'first_join_reply': first}))
+        return res
+    res.nontrivial = True
+    res.probes['online-mode-login'] = 1
+    res.obligations += 4
+    # the server holds a secret: from here on both directions must be the
+    # CFB8 stream keyed by exactly that secret
+    if st['errs']:
+        V.append(('C18/online-channel-unusable:%s'
+                  % type(st['errs'][0]).__name__,
+                  {'first_join_reply': first,
+                   'join_requests': len(svc.requests),
+                   'error': str(st['errs'][0])[:120]}))
+        return res
+    if app.errors:
+        V.append(('C18/server-cannot-parse-client-stream', app.errors[:3]))
+        return res
+    if app.enc['token_back'] != app.enc['token']:
+        V.append(('C18/token-not-recovered', None))
+    want = [(ids['sb.play.plugin'], wire.string(x[1]) + bytes.fromhex(x[2]))
+            for x in scenario['writes']]
+    got = [(pid, bytes(b)) for _s, stt, pid, b, _m in app.frames
+           if stt in ('play', 'paused')]
+    if got != want:
+        V.append(('C18/decrypted-client-stream-mismatch',
+                  {'n_got': len(got), 'n_want': len(want)}))
+        return res
+    start = app.enc['cipher_start']
+    pt = b''.join(wire.varint(len(wire.varint(pid) + b)) + wire.varint(pid)
+                  + b for pid, b in got)
+    if bytes(app.conn.c2s_bytes[start:]) != wire.CFB8(
+            app.enc['secret'], app.enc['secret']).update(pt):
+        V.append(('C18/ciphertext-not-cfb8-of-plaintext', None))
+    if st['log'] != [(i[1], i[2]) for i in scenario['items']]:
+        V.append(('C18/client-decrypted-stream-mismatch',
+                  {'n_got': len(st['log']),
+                   'n_want': len(scenario['items'])}))
+    # the hash the service was asked to vouch for names this very secret
+    rq = svc.requests[-1]
+    key = load_keys()[[s_ for s_ in scenario['server']['conns'][0]['login']
+                       if s_[0] == 'encrypt'][0][1]['bits']]
+    want_hash = wire.java_hex_digest(app.enc['server_id'], app.enc['secret'],
+                                     key['der'])
+    res.obligations += 1
+    if (rq['json'] or {}).get('serverId') != want_hash:
+        V.append(('C18/join-hash-names-another-secret',
+                  {'join_requests': len(svc.requests)}))
+    return res
 
 
 def wrapper_scenario(rng):
@@ -292,6 +456,8 @@ def execute(scenario, tape):
         return execute_wrapper(scenario, tape)
     if scenario['kind'] == 'dual':
         return execute_dual(scenario, tape)
+    if scenario['kind'] == 'online':
+        return execute_online(scenario, tape)
     w = World(scenario, tape)
     st = {'errs': [], 'logs': [[] for _ in range(scenario['logins'])],
           'login_no': -1, 'in_play': False, 'mixed': []}
@@ -599,6 +765,16 @@ def execute_wrapper(scenario, tape):
 
 
 def shrink_scenario(sc):
+    if sc['kind'] == 'online':
+        for key in ('writes', 'items'):
+            for j in range(len(sc[key])):
+                if len(sc[key]) > 1:
+                    c = copy.deepcopy(sc)
+                    del c[key][j]
+                    if key == 'items':
+                        c['server']['conns'][0]['play'] = c['items']
+                    yield c
+        return
     if sc['kind'] == 'dual':
         for name in ('A', 'B'):
             for j in range(len(sc['writes'][name])):
